@@ -266,6 +266,10 @@ func BuildModel(e Env) *Model {
 				p := ParamInfo{Name: tok(OpResult, ti, j, k)}
 				if k == 0 && len(mi.TypeParams) > 0 {
 					p.TypeText = "[]" + mi.TypeParams[len(mi.TypeParams)-1].Name
+				} else if sh.Variadic && k == sh.NResults-1 {
+					// the last result of a variadic method is a slice as well: what marks the variadic
+					// parameter (last of a variadic signature, a slice) must not mark it
+					p.TypeText = "[]" + dep2Type()
 				} else {
 					p.TypeText = dep2Type()
 				}
